@@ -18,6 +18,7 @@ import (
 	"github.com/refraction-networking/uquic/internal/protocol"
 	u "github.com/refraction-networking/uquic/internal/verifutil"
 	"github.com/refraction-networking/uquic/internal/wire"
+	tls "github.com/refraction-networking/utls"
 )
 
 func init() {
@@ -36,7 +37,9 @@ func init() {
 //   tparams/panic, tparams/roundtrip, tparams/override, tparams/reject-malformed,
 //   tparams/reject-duplicate, tparams/reject-perspective, tparams/reject-missing,
 //   tparams/reject-range, tparams/reject-length, tparams/accept, tparams/decode-value,
-//   tparams/reencode, tparams/ticket-roundtrip, tparams/rand.
+//   tparams/reencode, tparams/ticket-roundtrip, tparams/rand, tparams/populate
+//   ([uQUIC] PopulateFromUQUIC: ClientOverride is the spec's encoding and the struct fields agree
+//   with what a peer decodes from it).
 // Candidate findings (see tpFindingsAsMonfail): tparams/idle-timeout-wrap,
 //   tparams/min-ack-delay-wrap, tparams/idle-timeout-zero.
 // AdditionalTransportParametersClient (a map, iterated in random order) is left empty.
@@ -1430,6 +1433,117 @@ func (g *tpGen) mutate(enc []byte) []byte {
 	return b
 }
 
+
+// ---------------------------------------------------------------------------------------
+// [uQUIC] u_transport_parameters.go: PopulateFromUQUIC (monitor only, not modelled)
+// ---------------------------------------------------------------------------------------
+
+func (g *tpGen) populateCases(n int) {
+	r := g.r
+	for i := 0; i < n; i++ {
+		iscid := r.Bytes(int(r.Pick(0, 0, 8, 20)))
+		own := g.cid(8)
+		var spec tls.TransportParameters
+		add := func(p tls.TransportParameter) {
+			if r.Chance(3, 4) {
+				spec = append(spec, p)
+			}
+		}
+		add(tls.InitialMaxStreamDataBidiLocal(g.vv()))
+		add(tls.InitialMaxStreamDataBidiRemote(g.vv()))
+		add(tls.InitialMaxStreamDataUni(g.vv()))
+		add(tls.InitialMaxData(g.vv()))
+		add(tls.InitialMaxStreamsBidi(g.vv() % (tpMaxStreams + 1)))
+		add(tls.InitialMaxStreamsUni(g.vv() % (tpMaxStreams + 1)))
+		add(tls.MaxIdleTimeout(uint64(r.Pick(0, 1, 4999, 5000, 30000, 1<<30))))
+		add(tls.MaxUDPPayloadSize(uint64(r.Pick(1200, 1472, 65527))))
+		add(tls.MaxAckDelay(uint64(r.Pick(0, 20, 25, 26, 16383))))
+		add(&tls.DisableActiveMigration{})
+		add(tls.ActiveConnectionIDLimit(uint64(r.Pick(2, 4, 8, 64))))
+		add(tls.MaxDatagramFrameSize(g.vv()))
+		add(&tls.GREASEQUICBit{})
+		add(&tls.FakeQUICTransportParameter{Id: 0x4752, Val: r.Bytes(r.Intn(4))})
+		spec = append(spec, tls.InitialSourceConnectionID(iscid))
+		for j := len(spec) - 1; j > 0; j-- {
+			k := r.Intn(j + 1)
+			spec[j], spec[k] = spec[k], spec[j]
+		}
+		tp := &wire.TransportParameters{InitialSourceConnectionID: own, MaxDatagramFrameSize: -1, ActiveConnectionIDLimit: 2,
+			MaxAckDelay: 25 * time.Millisecond, AckDelayExponent: 3}
+		detail := ""
+		ok := true
+		func() {
+			defer func() {
+				if e := recover(); e != nil {
+					g.monfail("tparams/panic", fmt.Sprintf("PopulateFromUQUIC panicked: %v", e), fmt.Sprintf("spec=%x", spec.Marshal()))
+					ok = false
+				}
+			}()
+			tp.PopulateFromUQUIC(spec)
+			detail = fmt.Sprintf("spec=%x tp=%s", spec.Marshal(), wire.VerifDumpTParams(tp))
+		}()
+		if !ok {
+			continue
+		}
+		g.dist["populate"]++
+		want := spec.Marshal() // PopulateFromUQUIC has filled an empty initial_source_connection_id in
+		if !bytes.Equal(tp.ClientOverride, want) {
+			g.monfail("tparams/populate", "ClientOverride is not the encoding of the spec", detail)
+			continue
+		}
+		enc, mok := g.marshal(tp, protocol.PerspectiveClient, g.r.Bytes(18))
+		if !mok || !bytes.Equal(enc, want) {
+			g.monfail("tparams/populate", "Marshal does not send the spec's encoding", detail)
+			continue
+		}
+		q, cls, _, uok := g.unmarshal(enc, protocol.PerspectiveClient, false)
+		if !uok {
+			continue
+		}
+		if cls != 0 {
+			g.monfail("tparams/populate", fmt.Sprintf("the peer rejects the populated parameters (class %d)", cls), detail)
+			continue
+		}
+		// what the peer decodes is what the struct holds (the fields the connection consults)
+		mit := tp.MaxIdleTimeout
+		if mit < 5*time.Second && tpHas(spec, tpMIT) {
+			mit = 5 * time.Second
+		}
+		if q.InitialMaxData != tp.InitialMaxData || q.InitialMaxStreamDataBidiLocal != tp.InitialMaxStreamDataBidiLocal ||
+			q.InitialMaxStreamDataBidiRemote != tp.InitialMaxStreamDataBidiRemote || q.InitialMaxStreamDataUni != tp.InitialMaxStreamDataUni ||
+			q.MaxBidiStreamNum != tp.MaxBidiStreamNum || q.MaxUniStreamNum != tp.MaxUniStreamNum ||
+			q.ActiveConnectionIDLimit != tp.ActiveConnectionIDLimit || q.MaxDatagramFrameSize != tp.MaxDatagramFrameSize ||
+			q.MaxAckDelay != tp.MaxAckDelay || q.DisableActiveMigration != tp.DisableActiveMigration || q.MaxIdleTimeout != mit ||
+			q.InitialSourceConnectionID != tp.InitialSourceConnectionID {
+			g.monfail("tparams/populate", "the peer decodes "+wire.VerifDumpTParams(q)+" but the struct holds other values", detail)
+		}
+		if len(iscid) == 0 && tp.InitialSourceConnectionID != own {
+			g.monfail("tparams/populate", "an empty initial_source_connection_id in the spec replaced the connection's own", detail)
+		}
+		if tpHas(spec, tpMUPS) && q.MaxUDPPayloadSize != tp.MaxUDPPayloadSize {
+			g.dist["populate:max_udp_payload_size-not-copied"]++
+		}
+	}
+	// a spec entry that reuses a known id with another Go type
+	func() {
+		defer func() {
+			if e := recover(); e != nil {
+				fmt.Fprintf(g.w, "INFO\tEXPLORED\ttparams/populate-type-assertion\tPopulateFromUQUIC panics when the spec carries a known id in a FakeQUICTransportParameter: %v\tspec=[FakeQUICTransportParameter{Id:1,Val:4064}]\n", e)
+			}
+		}()
+		(&wire.TransportParameters{}).PopulateFromUQUIC(tls.TransportParameters{&tls.FakeQUICTransportParameter{Id: 1, Val: []byte{0x40, 0x64}}})
+	}()
+}
+
+func tpHas(spec tls.TransportParameters, id uint64) bool {
+	for _, p := range spec {
+		if p.ID() == id {
+			return true
+		}
+	}
+	return false
+}
+
 func runTParams(w *bufio.Writer, seed uint64, n int, _ []string) {
 	g := &tpGen{w: w, r: u.NewRng(seed), dist: map[string]int{}, seen: map[string]bool{}, rd: &tpReader{}}
 	thorough := os.Getenv("VERIF_TIER") == "thorough"
@@ -1467,6 +1581,8 @@ func runTParams(w *bufio.Writer, seed uint64, n int, _ []string) {
 	}
 	// (ii) byte strings
 	g.byteCases(n, thorough)
+	// (iii) [uQUIC] PopulateFromUQUIC
+	g.populateCases(20 + n/10)
 	keys := make([]string, 0, len(g.dist))
 	for k := range g.dist {
 		keys = append(keys, k)
